@@ -183,5 +183,21 @@ def main(argv=None) -> int:
     return 1 if viol_lines else 0
 
 
+def _main_with_scratch() -> int:
+    """every scratch file of the run (also of forked workers and child interpreters, whose exit handlers do not run) lives under
+    one directory that the main process removes when the check ends"""
+    import shutil
+    import tempfile
+    base = os.environ.get("VERIF_SCRATCH") or tempfile.gettempdir()
+    run_tmp = tempfile.mkdtemp(prefix="ddsvt_run_", dir=base)
+    os.environ["TMPDIR"] = run_tmp
+    os.environ["VERIF_SCRATCH"] = run_tmp
+    tempfile.tempdir = run_tmp
+    try:
+        return main()
+    finally:
+        shutil.rmtree(run_tmp, ignore_errors=True)
+
+
 if __name__ == "__main__":
-    sys.exit(main())
+    sys.exit(_main_with_scratch())
